@@ -24,15 +24,64 @@
      recogniser does not look at the value of a character reference;
    * `inst_*` (d): worked INSTANCES (one input each, by kernel evaluation), among them `&#4294967361;`
      (2^32 + 65, refused: the parse does not wrap), `&#X41;`, `&#x;`, `&#+65;`, `&foo;` with and without DOCTYPE.
+   * the WHOLE per-event check of `from_reader` (`Xml.readerAccepts`, driver op `reader_accepts`: the reference
+     check, then `]]>` refused in a Text event and `<` in a Start / Empty event - the repair of the two findings
+     below): `reader_text_iff` / `reader_tag_iff` (and `_doctype`): accepted ⇔ `RefsOk` and no `]]>` / no `<`;
+     `charData_of_reader`: an accepted Text event satisfies `Spec.charDataOk` with NO further hypothesis
+     (`acc_reader_text` in the shape of `acc_text`); `attValue_of_reader`: in an accepted tag, a value standing
+     between two quotes `q` satisfies `Spec.attValue q`, the one hypothesis left being that the value holds no
+     `q` itself (quick-xml ends the value at the first `q`); `value_of_reader`; completeness:
+     `reader_accepts_charData` ([14] proper: no `&`, no `]]>` ⇒ accepted), `reader_accepts_refs`;
+     `charDataOk_not_enough_instance`: completeness from `Spec.charDataOk` alone is FALSE (`&#0;`, `&#xD800;`:
+     the recogniser does not apply WFC Legal Character, the reader does); `inst_text_cdend`, `inst_tag_lt`,
+     `inst_tag_ok`, `inst_text_gt_ok`: instances.
   No input was found on which the code accepts what XML forbids or refuses what XML allows (it is the
   equivalence `check_iff`); what it does not look at: `]]>` in character data, `<` in an attribute value, and -
   with a DOCTYPE - whether the name is in fact declared there. The first two are exactly the hypotheses the
   bridge lemmas keep, and nothing else in the reader discharges them: the real-SVG documents
   `<svg xmlns="http://www.w3.org/2000/svg" width="1" height="1"><text x="1" y="1">a ]]> b</text></svg>` and
   `<svg xmlns="http://www.w3.org/2000/svg" width="1" height="1"><rect x="<" y="1" width="1" height="1"/></svg>`
-  are copied as written (exit 0) and expat refuses both outputs (in an svgdx document both are re-escaped).
+  were copied as written (exit 0) and expat refused both outputs (in an svgdx document both are re-escaped);
+  repaired since by the stray test that `readerAccepts` mirrors.
+-/
+/-
+  C02, extension (Svgdx/Proofs/ThemeWf.lean, model Svgdx/Theme/Inject.lean): the auto-style block that
+  `write_auto_styles` (transform.rs) injects after the root start tag - the part `C02Xml` left to the expat oracle.
+
+  Author input that reaches the CSS text: `background`, `font_family`, the local style id (`svgdx-%08x`, generated)
+  and `font_size` (a number; printed, digits / `-` / `.`). None of them is escaped by themes.rs; all of them end up
+  inside ONE CData event, and the writer (`OutputList::write_to`, `BytesCData::escaped`, model `Xml.cdataSplit`)
+  splits that event at every `]]>`. Class names reach the text only for pattern classes (`d-grid-7`, …), whose
+  shape is fixed by `get_spacing`.
+   * `fmt_chars`: every character of `format!(tpl, args…)` comes from the template or from an argument;
+   * `styles_chars`: for every theme, class list, element list and order of the pattern classes, every character of
+     every emitted rule is a `cssCh` character (printable ASCII other than `<`, `>`, `&`, `]`: the generated tables
+     of themes.rs, re-checked by evaluation on every run, and printed numbers) or a character of `background`,
+     `font_family` or the local id;
+   * `styleCData_chars` / `indentEntry_chars`: `indent_all` adds blanks and newlines only;
+   * `styleCData_noCDEnd`: the CDATA text contains no `]]>` when none of the three author strings contains `]`
+     (or none contains `>`); `style_single_section`: then the writer emits exactly one section holding the text
+     unchanged (`cdataSplit_plain`);
+   * `styleCData_isChar`: the text consists of XML `Char`s when the author strings do;
+   * `styleBlock_wellformed`: the written `<style>` element (text, start tag, debug comment, CDATA, end tag) is
+     accepted by `Xml.Spec.wfContent` for ARBITRARY rule texts - no hypothesis on the author strings is needed,
+     because the code splits the section; `styleBlock_strict`: and by `wfContentStrict` whenever the writer's
+     character guard lets it pass.
+  `<defs>` (Svgdx/Proofs/ThemeDefsWf.lean), partial:
+   * `fixed_defs_wf` / `arrow_shadow_defs_wf`: the arrow marker and the two shadow filters, i.e. everything
+     `arrowDefs` and `shadowDefs` emit for any class list, are accepted by `wfContent` as they stand;
+   * `pattern_defs_wf_bare`: so are the pattern definitions of the six bare pattern classes under all six themes,
+     and of the spacings 0, 7, 100 of each parameterised class (by evaluation).
+  Not proved: a pattern definition for an ARBITRARY accepted class (`d-grid-N`, N <= 100, any spelling `+5`, `007`;
+  the only unbounded part is the id, which by `rowClass_chars` consists of letters, digits, `-`, `+`; the texts are
+  available in closed form, `patternDef_eq`); that the concatenation `defsBlock` is well-formed; the reader /
+  writer pass the definitions go through; and the composition with the rest of the document. These stay with the
+  expat oracle of the harness. No input was found on which the binary writes a non-well-formed auto-style block
+  (`]]>`, `</style>`, `<`, `&`, CR / LF in background and font-family, on the command line and in `<config>`).
 -/
 import Svgdx.Proofs.RefCheck
+import Svgdx.Proofs.ThemeWf
+import Svgdx.Proofs.ThemeDefsWf
 
 #print axioms Svgdx.Props.C02Ref.check_sound
 #print axioms Svgdx.Props.C02Ref.check_every_amp
@@ -70,3 +119,36 @@ import Svgdx.Proofs.RefCheck
 #print axioms Svgdx.Props.C02Ref.inst_foo_no_doctype
 #print axioms Svgdx.Props.C02Ref.inst_foo_doctype
 #print axioms Svgdx.Props.C02Ref.inst_not_name_doctype
+#print axioms Svgdx.Props.C02Ref.reader_text_iff
+#print axioms Svgdx.Props.C02Ref.reader_tag_iff
+#print axioms Svgdx.Props.C02Ref.reader_text_iff_doctype
+#print axioms Svgdx.Props.C02Ref.reader_tag_iff_doctype
+#print axioms Svgdx.Props.C02Ref.charData_of_reader
+#print axioms Svgdx.Props.C02Ref.acc_reader_text
+#print axioms Svgdx.Props.C02Ref.attValue_of_reader
+#print axioms Svgdx.Props.C02Ref.value_of_reader
+#print axioms Svgdx.Props.C02Ref.reader_accepts_charData
+#print axioms Svgdx.Props.C02Ref.reader_accepts_refs
+#print axioms Svgdx.Props.C02Ref.charDataOk_not_enough_instance
+#print axioms Svgdx.Props.C02Ref.inst_text_cdend
+#print axioms Svgdx.Props.C02Ref.inst_tag_lt
+#print axioms Svgdx.Props.C02Ref.inst_tag_ok
+#print axioms Svgdx.Props.C02Ref.inst_text_gt_ok
+#print axioms Svgdx.Theme.fmt_chars
+#print axioms Svgdx.Theme.table_css
+#print axioms Svgdx.Theme.colour_css
+#print axioms Svgdx.Theme.theme_css
+#print axioms Svgdx.Theme.display_numChar
+#print axioms Svgdx.Theme.styles_chars
+#print axioms Svgdx.Theme.indentEntry_chars
+#print axioms Svgdx.Theme.styleCData_chars
+#print axioms Svgdx.Theme.styleCData_build_chars
+#print axioms Svgdx.Theme.cdataSplit_plain
+#print axioms Svgdx.Theme.styleCData_noCDEnd
+#print axioms Svgdx.Theme.style_single_section
+#print axioms Svgdx.Theme.styleCData_isChar
+#print axioms Svgdx.Theme.styleBlock_wellformed
+#print axioms Svgdx.Theme.styleBlock_strict
+#print axioms Svgdx.Theme.fixed_defs_wf
+#print axioms Svgdx.Theme.arrow_shadow_defs_wf
+#print axioms Svgdx.Theme.pattern_defs_wf_bare
